@@ -24,7 +24,7 @@ def motx(raw):
 
 def run(tier, seed, replay=None):
     res = C.Result("C15", tier, seed)
-    res.rule = ("generated WMO roots (textures / groups / doodad sets with names sharing prefixes, materials, group infos, portals and references, visibility lists, lights, skybox; "
+    res.rule = ("generated WMO roots (textures / groups / doodad sets with names sharing prefixes, set names of exactly 17 / 18 / 19 bytes and group names with multi-byte characters on half of the roots, materials, group infos, portals and references, visibility lists, lights, skybox; "
                 "each list empty / one / many) in every version the writer accepts: write_root -> parse_root -> write_root: parsed content equal to the object, second write "
                 "byte-identical, every header count equal to the length of its list, chunk framing decided by the extracted proved walk, texture names found at the offsets the "
                 "proved name-table function computes; generated groups through write_group / parsers; convert_root over the whole matrix of versions (with and without skybox) and convert_group over version pairs: content representable in "
